@@ -37,6 +37,8 @@ class Stepper:
         D = self.D = cfg["D"]
         self.box = [list(map(float, b)) for b in cfg["box"]]
         self.dom = [list(b) for b in self.box]
+        if cfg.get("alias_dom") and all(b == self.box[0] for b in self.box):
+            self.dom = [self.dom[0]] * D          # the idiomatic [[lo, hi]] * d: one inner list object, d times
         self.before = copy.deepcopy(self.dom)
         part = A.partition_class(cfg["kind"], cfg["K"])
         self.P = {"kind": cfg["kind"], "K": cfg["K"], "D": D, "metric": "rank", "arity": A.arity(cfg["kind"], cfg["K"], D), "algo": cfg["algo"]}
@@ -120,9 +122,16 @@ def _cfg_summary(cfg):
 
 
 def pmap(fn, items, procs=None):
+    """parallel map over worker processes; a worker that dies (e.g. killed for memory) is a machinery failure,
+    never a silent hang"""
+    import concurrent.futures as cf
+    from .common import Machinery
     procs = procs or min(os.cpu_count() or 4, 16)
     if len(items) < 4 or procs == 1:
         return [fn(x) for x in items]
     ctx = mp.get_context("fork")
-    with ctx.Pool(procs) as pool:
-        return pool.map(fn, items, chunksize=max(1, len(items) // (procs * 8)))
+    try:
+        with cf.ProcessPoolExecutor(max_workers=procs, mp_context=ctx) as ex:
+            return list(ex.map(fn, items, chunksize=max(1, len(items) // (procs * 8))))
+    except cf.process.BrokenProcessPool as e:
+        raise Machinery("a worker process died while running %s: %s" % (getattr(fn, "__name__", fn), e))
